@@ -157,6 +157,7 @@ type vfbNet struct {
 	queue     []*vfbQueued
 	// taps
 	onPut     func(n *vfbNode, b *common.Beacon, src string, seq int64)
+	onPutRet  func(n *vfbNode, b *common.Beacon, src string, err error) // after the base store answered
 	onDeliver func(to *vfbNode, from int, p *proto.PartialBeaconPacket, src string, seq int64)
 	onEmit    func(from *vfbNode, to int, p *proto.PartialBeaconPacket, clk int64)
 	onSyncSend func(server *vfbNode, b *proto.BeaconPacket)
@@ -567,6 +568,9 @@ func (s *vfbTapStore) Put(ctx context.Context, b *common.Beacon) error {
 		s.mu.Unlock()
 	}
 	s.net.record(vfbEvent{Kind: "put-ret", Node: s.node.pos, From: -1, Round: b.Round, Src: src, Err: es, Idx: -1})
+	if s.net.onPutRet != nil {
+		s.net.onPutRet(s.node, cp, src, err)
+	}
 	return err
 }
 
